@@ -575,8 +575,10 @@ class _Sim(object):
             cls = getattr(__import__("builtins"), out["cls"])
             raise cls(out["msg"])
         if k == "notimpl":
-            from behave.exception import StepNotImplementedError
+            from behave.api.pending_step import StepNotImplementedError, PendingStepError
             ev["raised"] = "StepNotImplementedError"
+            if out.get("alt"):
+                raise PendingStepError(out["msg"])
             raise StepNotImplementedError(out["msg"])
         if k == "kbi":
             ev["raised"] = "KeyboardInterrupt"
